@@ -139,9 +139,11 @@ pub fn generate(seed: u64) -> Sc {
                     row.cur = Some((*r.pick(&["usd", "Usd", " USD ", "usd "])).to_string());
                 }
             }
-            if r.chance(1, 12) {
-                // degenerate explicit rates: 1 is a rate like any other, 0 and negatives are refused
-                row.fx = Some((*r.pick(&["1", "0", "-1.25", "1.0000"])).to_string());
+            if r.chance(1, 12) && row.cur.is_some() {
+                // a degenerate explicit rate: 1 is a rate like any other (what the tool does with a zero
+                // or negative rate, or with a rate that has no currency, the property does not say:
+                // not generated)
+                row.fx = Some((*r.pick(&["1", "1.0", "1.0000"])).to_string());
             }
             row.sell = r.chance(1, 4);
             // a return of capital carries a per-share amount in the row's currency and needs the same rate
